@@ -35,8 +35,10 @@ CONSTANTS
   Bug_ImmDropEarly,      \* immutable memtable dropped before the new version is installed
   Bug_FlushDeepDuringCompaction, \* a memtable flushed while a table compaction runs may be pushed
                          \* below level 0 (into a gap between the compaction's inputs)
-  Bug_ExpandKeepsParents \* the compaction-level inputs are expanded although the wider range
+  Bug_ExpandKeepsParents,\* the compaction-level inputs are expanded although the wider range
                          \* overlaps more parent files (which are then left out)
+  Bug_ExpandNoBoundary   \* the files added by the expansion do not bring their boundary files
+                         \* along (a user key straddling two files of the level is split)
 
 VARIABLES
   nk,        \* number of keys in use (= NK here; set per run in trace validation)
@@ -177,7 +179,8 @@ InputChoices(l, S0, S1) ==
   IF S1 = {} THEN {<<S0, S1>>}
   ELSE LET all == S0 \cup S1
            W == {f \in LvlSet(cur, l) : UOverlap(f, RangeLo(all), RangeHi(all))} \cup S0
-           E0 == Boundary(l, IF l = 0 THEN L0Close(W) ELSE W)
+           E0 == IF Bug_ExpandNoBoundary THEN (IF l = 0 THEN L0Close(W) ELSE W)
+                 ELSE Boundary(l, IF l = 0 THEN L0Close(W) ELSE W)
            E1 == Boundary(l + 1, {g \in LvlSet(cur, l + 1) : UOverlap(g, RangeLo(E0), RangeHi(E0))}) IN
        IF Cardinality(E0) > Cardinality(S0) /\ (Bug_ExpandKeepsParents \/ E1 = S1)
        THEN {<<S0, S1>>, <<E0, S1>>}
